@@ -37,12 +37,15 @@ pub fn gen_case<R: Rng>(rng: &mut R) -> Case {
         2 => 10f64.powf(rng.gen_range(-2., 2.)),
         _ => [0.01, 1., 2., 8., 100.][rng.gen_range(0, 5)],
     };
-    let ratio = match rng.gen_range(0, 3) {
+    // (cells read from JSON are any lattice: second side longer than the first, obtuse angles)
+    let ratio = match rng.gen_range(0, 5) {
         0 => [0.1, 0.5, 1.0][rng.gen_range(0, 3)],
+        1 => rng.gen_range(1.0, 10.0),
         _ => rng.gen_range(0.1, 1.0),
     };
-    let angle = match rng.gen_range(0, 4) {
+    let angle = match rng.gen_range(0, 6) {
         0 => [PI / 2., PI / 3., PI / 6., PI / 4.][rng.gen_range(0, 4)],
+        1 => rng.gen_range(0.05, PI - 0.05),
         _ => rng.gen_range(PI / 6., PI / 2.),
     };
     let phi: f64 = rng.gen_range(0., 2. * PI);
@@ -63,7 +66,12 @@ pub fn gen_case<R: Rng>(rng: &mut R) -> Case {
         fx: rng.gen_range(-3., 3.),
         fy: rng.gen_range(-3., 3.),
         m,
-        t: [rng.gen_range(-0.5, 0.5), rng.gen_range(-0.5, 0.5)],
+        // placements inside the cell, on its faces, and outside it
+        t: match rng.gen_range(0, 4) {
+            0 => [rng.gen_range(-3., 3.), rng.gen_range(-3., 3.)],
+            1 => [[-0.5, 0.5, 0., 1., -1.5][rng.gen_range(0, 5)], [-0.5, 0.5, 0., 2.][rng.gen_range(0, 4)]],
+            _ => [rng.gen_range(-0.5, 0.5), rng.gen_range(-0.5, 0.5)],
+        },
         shells: rng.gen_range(0, 7),
         zero: rng.gen_bool(0.5),
     }
